@@ -85,6 +85,7 @@ struct Outcome {
     n_out: usize,
     pre: String,          // rendered diagnostics printed before the program runs (resolver warnings)
     post: String,         // rendered diagnostics printed last (the failing phase, or runtime warnings)
+    plan: String,         // "-" (resolver not finished) | "none" (analysis cap exceeded) | "some:<stmts>:<fns>" pruned
 }
 
 // ---------------------------------------------------------------- library pipeline
@@ -110,6 +111,7 @@ fn run_lib(src: &str, filename: &str) -> Outcome {
             n_out: 0,
             pre: String::new(),
             post: perr.render_ansi(src, filename).to_string(),
+            plan: "-".to_string(),
         };
     }
     let mut resolver = Resolver::new(&arena);
@@ -127,6 +129,7 @@ fn run_lib(src: &str, filename: &str) -> Outcome {
             n_out: 0,
             pre: String::new(),
             post: resolver.errors.render_ansi(src, filename).to_string(),
+            plan: "-".to_string(),
         };
     }
     let mut pre = String::new();
@@ -134,6 +137,10 @@ fn run_lib(src: &str, filename: &str) -> Outcome {
         resolver.errors.report(src, filename);
         pre = resolver.errors.render_ansi(src, filename).to_string();
     }
+    let plan = match &resolver.optimization_plan {
+        None => "none".to_string(),
+        Some(p) => format!("some:{}:{}", p.removable_stmts.len(), p.removable_function_defs.len()),
+    };
     let mut runtime = Runtime::new(&arena, Some(&frame));
     let err = runtime.run_with_analysis(root, &resolver.facts, resolver.optimization_plan.as_ref());
     let rt_err = count_errors(err);
@@ -154,6 +161,7 @@ fn run_lib(src: &str, filename: &str) -> Outcome {
         n_out: lines.len(),
         pre,
         post,
+        plan,
     }
 }
 
@@ -223,12 +231,13 @@ fn lib_mode(input: &str, output: &str) -> ExitCode {
             let printed = c.end();
             let rec = match r {
                 Ok(o) => format!(
-                    "R {id} {} {} errs={} warns={} nout={} out={} pre={} post={} printed={}\n",
+                    "R {id} {} {} errs={} warns={} nout={} plan={} out={} pre={} post={} printed={}\n",
                     o.status,
                     o.phase,
                     o.errors,
                     o.warnings,
                     o.n_out,
+                    o.plan,
                     hex(o.output.as_bytes()),
                     hex(o.pre.as_bytes()),
                     hex(o.post.as_bytes()),
